@@ -193,6 +193,14 @@ def _denotes(qs, rep, n, mask, v, adj):
     return None
 
 
+def _cz_matrix(n, a, b):
+    d = np.ones(2 ** n, dtype=complex)
+    for i in range(2 ** n):
+        if (i >> (n - 1 - a)) & 1 and (i >> (n - 1 - b)) & 1:
+            d[i] = -1
+    return np.diag(d)
+
+
 def check_chain(case, sub="chains"):
     from graphiq.backends.stabilizer.functions.rep_conversion import get_clifford_tableau_from_graph
     from graphiq.state import QuantumState
@@ -214,8 +222,20 @@ def check_chain(case, sub="chains"):
     bad = _denotes(qs, cur, n, mask, v, adj)
     if bad:
         raise Violation(sub, "initial", "QuantumState", "init:" + cur, bad)
-    for nxt in chain[1:]:
+    for k_, nxt in enumerate(chain[1:]):
         step = "%s->%s" % (cur, nxt)
+        if k_ >= 1 and n >= 2 and cur in ("s", "dm") and case.get("edit", True):
+            # the state is changed in place through the held representation (one CZ = one edge toggled) between two conversions
+            a_, b_ = 0, 1 + (mask % (n - 1))
+            if cur == "s":
+                guarded(sub, step + ":edited", qs.rep_data.apply_cz, a_, b_)
+            else:
+                guarded(sub, step + ":edited", qs.rep_data.apply_unitary, sv.op2(n, a_, b_, "CZ") if hasattr(sv, "op2") else _cz_matrix(n, a_, b_))
+            mask = mask ^ (1 << rg.pairs(n).index((a_, b_)))
+            v = rg.graph_state(n, mask)
+            adj = rg.adj_from_mask(n, mask)
+            cl.append("edited_between_conversions")
+            step += ":edited"
         guarded(sub, step, qs.convert_representation, nxt)
         bad = _denotes(qs, nxt, n, mask, v, adj)
         if bad:
